@@ -105,10 +105,12 @@ structure Stat where
 /-- directory descriptor argument: a descriptor, or the `/proc/self/fd` directory -/
 inductive HCall where
   | openat (dir : Fd) (name : Name) (flags mode : Nat)
-  /-- `openat(proc_self_fd, "<fd>", flags)` -/
-  | reopen (fd : Fd) (flags : Nat)
-  /-- `open_by_handle_at(mount_fd, handle, flags)`; `h` names the file handle (bytes) -/
-  | openByHandle (h : Nat) (flags : Nat)
+  /-- `openat(proc_self_fd, "<fd>", flags)`.  `mode` is a ghost argument (not part of the system
+      call): the file type and mode the caller has on record for the object behind `fd`. -/
+  | reopen (fd : Fd) (flags : Nat) (mode : Nat)
+  /-- `open_by_handle_at(mount_fd, handle, flags)`; `h` names the file handle (bytes); `mode` is
+      the same ghost argument as for `reopen` -/
+  | openByHandle (h : Nat) (flags : Nat) (mode : Nat)
   | nameToHandle (fd : Fd) (flags : Nat)
   | statx (fd : Fd) (name : Name) (flags mask : Nat)
   | fstatat (fd : Fd) (name : Name) (flags : Nat)
@@ -169,7 +171,7 @@ def HCall.isCred : HCall → Bool
 /-- calls that cannot change any file-system object -/
 def HCall.readOnly : HCall → Bool
   | .openat _ _ flags _ => !(has flags O_CREAT) && !(has flags O_TRUNC)
-  | .reopen _ flags | .openByHandle _ flags => !(has flags O_TRUNC)
+  | .reopen _ flags _ | .openByHandle _ flags _ => !(has flags O_TRUNC)
   | .nameToHandle .. | .statx .. | .fstatat .. | .readlinkat .. | .lseek .. | .preadv .. | .fstatvfs ..
   | .getxattr .. | .listxattr .. | .fsync .. | .fdatasync .. | .setfl .. | .capget
   | .setresgid .. | .setresuid .. | .capset .. => true
@@ -204,6 +206,18 @@ def runScript : Prog α → List HAns → α × List HCall × List HAns
   | .call c k, a :: as =>
     let (v, cs, r) := runScript (k a) as
     (v, c :: cs, r)
+
+/-- run against an answer function (the same answer for the same call); value and calls -/
+def runFn (ans : HCall → HAns) : Prog α → α × List HCall
+  | .pure a => (a, [])
+  | .call c k =>
+    let r := runFn ans (k (ans c))
+    (r.1, c :: r.2)
+
+/-- every call the program can ever make, whatever the host answers, satisfies `P` -/
+def OnlyCalls (P : HCall → Prop) : Prog α → Prop
+  | .pure _ => True
+  | .call c k => P c ∧ ∀ a, OnlyCalls P (k a)
 
 end Prog
 
@@ -258,8 +272,8 @@ class HostLaws {σ : Type} (H : HostOps σ) : Prop where
     ((∃ e, (H.step s (.capset b)).1 = .err e) ∧ H.creds (H.step s (.capset b)).2 = H.creds s)
   /-- raising a capability that is in the permitted set succeeds (as root) -/
   capset_raise : ∀ s, (H.creds s).permFsetid = true → (H.creds s).euid = 0 → (H.step s (.capset true)).1 = .ok
-  /-- capget reports the effective set -/
-  capget_spec : ∀ s, (H.step s .capget).1 = .caps (H.creds s).effFsetid ∨ ∃ e, (H.step s .capget).1 = .err e
+  /-- capget (on the calling thread, valid header) reports the effective set -/
+  capget_spec : ∀ s, (H.step s .capget).1 = .caps (H.creds s).effFsetid
 
 namespace Prog
 
